@@ -367,3 +367,54 @@ Definition run_clustercommit (inp : list N) : list N :=
     run_clabels cfg (length r') (mkCG (mkLG (mkG nodes [] [] []) []) [] [] []) r'
   | [] => []
   end.
+
+(* ---------------------------------------------------------------- component 103: with takeSnapshot *)
+(* as component 102 with TrailingLogs chosen by the input and one more label:
+     11 j   takeSnapshot at server j (the snapshot goroutine: FSM snapshot, sink, compactLogs)
+   input : trailing ; n ; extras ; labels.   Per node the dump also carries the newest snapshot (index term). *)
+Definition with_trailing (t : N) (n : gnode) : gnode :=
+  let P := gn_P n in
+  mkGN (mkP (p_self P) (p_monotonic P) (p_track P) (p_rc P) t (p_maxappend P) (p_decode P)) (gn_run n) (gn_sess n) (gn_next n).
+
+Definition enc_snode (g : cgstate) (n : gnode) : list N :=
+  let s := image (gn_run n) in enc_cnode g n ++ [v_lastSnapIdx s; v_lastSnapTerm s].
+
+Definition enc_sgstate (g : cgstate) : list N :=
+  flat_map (enc_snode g) (cnodes g)
+  ++ [N.of_nat (length (g_leaders (lg_g (cg_l g)))); N.of_nat (length (lg_msgs (cg_l g))); N.of_nat (length (cg_ans g))]
+  ++ match rev (lg_msgs (cg_l g)) with m :: _ => enc_amsg m | [] => [] end.
+
+Definition dec_slabel (l : list N) : option (clabel * list N) :=
+  match l with
+  | 11 :: j :: r => Some (CBase (LElect (GInput j NSnapshot 0 [])), r)
+  | _ => dec_clabel l
+  end.
+
+Fixpoint run_slabels (cfg : config) (fuel : nat) (g : cgstate) (l : list N) : list N :=
+  match fuel with
+  | O => []
+  | S f =>
+    let '(silent, l1) := match l with 99 :: r => (true, r) | _ => (false, l) end in
+    match dec_slabel l1 with
+    | None => []
+    | Some (lb, rest) =>
+      match cstep true [cfg] g lb with
+      | Some g' =>
+        let acks := filter (fun te => e_ty (snd te) =? LogCommand) (step_acks g lb) in
+        (if silent then [2]
+         else 1 :: enc_sgstate g' ++ N.of_nat (length acks) :: flat_map (fun te => [e_idx (snd te); e_data (snd te)]) acks)
+        ++ run_slabels cfg f g' rest
+      | None => 0 :: run_slabels cfg f g rest
+      end
+    end
+  end.
+
+Definition run_clustersnap (inp : list N) : list N :=
+  match inp with
+  | t :: n :: r =>
+    let cfg := mk_cfg (N.to_nat n) in
+    let '(extras, r') := take_extras (N.to_nat n) r in
+    let nodes := map (fun p => with_trailing t (mk_node cfg (N.of_nat (fst p)) (snd p))) (combine (seq 1 (N.to_nat n)) extras) in
+    run_slabels cfg (length r') (mkCG (mkLG (mkG nodes [] [] []) []) [] [] []) r'
+  | _ => []
+  end.
